@@ -1,5 +1,5 @@
 (* HistoryP.v -- the invariant [db_reflects_ghost] of Model/History.v, proved for every operation
-   list without WriteSameMtime (FS-fresh), for a code version with both repairs (fixA, fixB). *)
+   list without WriteSameMtime (FS-fresh), for a code version with the repairs fixA and fixB (with or without fixC). *)
 From Coq Require Import ZifyBool.
 From DoitV Require Import Base Status History StatusP.
 Open Scope Z_scope.
@@ -468,7 +468,7 @@ Lemma sound_at s t :
      forall f, In f (file_dep df) ->
        exists then_ now, g_fs g f = Some then_ /\ s_fs s f = Some now /\ unmodified md5 (s_ck s) then_ now).
 Proof.
-  intros (Hb & Ht & Hcr) H df. unfold check in H. apply get_status_uptodate_iff in H.
+  intros (Hb & Ht & Hcr) H df. unfold check in H. apply get_status_uptodate_iff_fv in H; [|exact HA].
   destruct H as (H1 & H2 & H3 & H4 & H5 & H6). fold df in H1, H2, H3, H5, H6.
   rewrite Forall_forall in H6.
   split; [exact H1|]. split; [exact H2|]. split; [exact H3|].
@@ -524,6 +524,28 @@ Proof.
   - rewrite (getrec_none _ _ Er). split; [reflexivity|]. split; [reflexivity|]. rewrite HF. constructor.
 Qed.
 
+(* ... and every file dependency is in the saved 'deps:' list (so that the loop of get_status compares
+   states only, fixC or not) *)
+Lemma complete_inside s t :
+  db_reflects_ghost s -> files_as_last_ok s t ->
+  forall f, In f (file_dep (s_defs s t)) -> outside_saved_deps (getrec (s_db s) t) f = false.
+Proof.
+  intros (Hb & Ht & Hcr) HF f Hf. specialize (Ht t). unfold task_inv in Ht. unfold files_as_last_ok in HF.
+  destruct (s_db s t) as [r|] eqn:Er; destruct (s_last_ok s t) as [g|] eqn:Eg.
+  - rewrite (getrec_some _ _ _ Er). destruct Ht as (T1 & T2 & T3 & _). destruct HF as (F1 & F2 & F3).
+    unfold outside_saved_deps. rewrite T3. apply negb_false_iff. apply mem_In. apply F2. exact Hf.
+  - rewrite HF in Hf. destruct Hf.
+  - destruct Ht.
+  - rewrite (getrec_none _ _ Er). reflexivity.
+Qed.
+Lemma complete_verdicts s t :
+  db_reflects_ghost s -> files_as_last_ok s t ->
+  Forall (fun f => dep_verdict md5 v (s_ck s) (s_fs s) (getrec (s_db s) t) f = FSame) (file_dep (s_defs s t)).
+Proof.
+  intros Hinv HF. destruct (complete_files s t Hinv HF) as (_ & _ & C3).
+  apply (Forall_verdicts_inside md5 v); auto. apply complete_inside; auto.
+Qed.
+
 Lemma complete_at s t :
   db_reflects_ghost s ->
   let df := s_defs s t in
@@ -539,7 +561,7 @@ Lemma complete_at s t :
   g_status (check s t) = UpToDate.
 Proof.
   intros Hinv df H1 H2 H3 HF. unfold check. apply get_status_uptodate_iff.
-  destruct (complete_files s t Hinv HF) as (C1 & C2 & C3).
+  destruct (complete_files s t Hinv HF) as (C1 & C2 & _). pose proof (complete_verdicts s t Hinv HF) as C3.
   split; [exact H1|]. split; [exact H2|]. split; [exact H3|]. auto.
 Qed.
 
@@ -552,7 +574,10 @@ Proof.
   intros (Hb & Ht & Hcr) Hck Hnow Hcons Hs Hc. unfold check. simpl.
   apply get_status_fs_ext.
   - intros x _. unfold exists_, upd. destruct (N.eqb_spec x f) as [->|]; auto. rewrite Hnow. reflexivity.
-  - intros f' _. unfold file_verdict, upd. destruct (N.eqb_spec f' f) as [->|]; auto. rewrite Hnow.
+  - intros f' _.
+    match goal with |- dep_verdict _ _ ?c ?fs1 ?r ?x = dep_verdict _ _ _ ?fs2 _ _ =>
+      rewrite !(dep_verdict_spec md5); assert (FV : file_verdict md5 c fs1 r x = file_verdict md5 c fs2 r x); [|rewrite FV; reflexivity] end.
+    unfold file_verdict, upd. destruct (N.eqb_spec f' f) as [->|]; auto. rewrite Hnow.
     set (r := getrec (if ck_changed (s_ck s) (getrec (s_db s) t) then remove (s_db s) t else s_db s) t).
     destruct (r_saved r f) as [e|] eqn:Ee; auto.
     destruct (task_inv_getrec s t (Ht t)) as [G1 G2].
@@ -798,7 +823,7 @@ Lemma settled_verdict s t :
   (g_status (check s t) = UpToDate \/ g_status (check s t) = Run).
 Proof.
   intros Hinv HF Htg.
-  destruct (complete_files s t Hinv HF) as (C1 & C2 & C3).
+  destruct (complete_files s t Hinv HF) as (C1 & C2 & _). pose proof (complete_verdicts s t Hinv HF) as C3.
   assert (Hiff : g_status (check s t) = UpToDate <-> items_ok (s_db s) t (s_defs s t) /\ some_dep (s_db s) t (s_defs s t)).
   { unfold check. rewrite get_status_uptodate_iff. unfold targets_ok. tauto. }
   split; [exact Hiff|].
